@@ -28,7 +28,9 @@ EXPLANATION = (
     "converter process_mutation of Gene._init_alleles on every variant kind (substitution, multi-nucleotide substitution, "
     "insertion, deletion, deletion-insertion) x positions x both strands -> sequence-level haplotype equality; "
     "get_refseq / get_rsid / get_functional / _reverse_op on the stored tuples; the head of Sample._realign_indels with a "
-    "recording Variant stub -> reference-true alleles and the equivalent-key convention used by _parse_read."
+    "recording Variant stub -> reference-true alleles and the equivalent-key convention used by _parse_read; the same routine on a "
+    "repeat-rich reference where every equivalent placement (brute force over the reference) must be registered under the parser's key for that "
+    "placement; every slice of Gene.__getitem__ around the ends of the lookup range. Class-level attributes are shared by the folds of a run."
 )
 ASSUMPTIONS = ["catalogue convention: an insertion at position p is placed after base p (database and genome side alike)",
                "read-side convention: an inserted run is keyed at the next reference position (C06 table)"]
